@@ -203,6 +203,12 @@ impl Runner {
                 self.sut.open_conn();
                 "ok".to_string()
             }
+            [n, ..] if *n == "note" => {
+                if self.prog_start.is_empty() {
+                    self.prog_start.push(lineno);
+                }
+                "ok".to_string()
+            }
             ["chunk", hx] => {
                 let b = wire::unhex(hx).unwrap();
                 self.sut.chunk(&b)
@@ -418,6 +424,9 @@ impl Runner {
             if profile == "C19" {
                 self.twin(&mut rng);
             }
+            if profile == "C20" {
+                self.policy_twin();
+            }
         }
         self.finish();
     }
@@ -460,6 +469,34 @@ impl Runner {
             }
         }
         self.finish();
+    }
+
+    /// C20: the program just finished, re-run on a store under RandomPolicy with a limit that is not reached
+    /// (64 MiB): every response and the content after every command must be identical
+    pub fn policy_twin(&mut self) {
+        let start = *self.prog_start.last().unwrap();
+        let orig_ops: Vec<String> = self.ops[start..].to_vec();
+        let orig_outs: Vec<String> = self.outs[start..].to_vec();
+        let limit: u32 = orig_ops[0].split(' ').nth(1).unwrap().parse().unwrap();
+        let mut sut = Sut::new(limit, Some(64 << 20));
+        let prog = self.prog_start.len() - 1;
+        for (i, l) in orig_ops.iter().enumerate() {
+            let p: Vec<&str> = l.split(' ').collect();
+            let out = match p.as_slice() {
+                ["new", _] => "ok".to_string(),
+                ["now", t] => {
+                    sut.set_now(t.parse().unwrap());
+                    "ok".to_string()
+                }
+                ["req", hx] => sut.req(&wire::unhex(hx).unwrap()),
+                ["dump"] => sut.dump(),
+                _ => continue,
+            };
+            if out != orig_outs[i] {
+                self.violations.push((prog, vec!["C20"], start + i, format!("with eviction policy random (64 MiB, not reached) line {} of the program answers [{}], with policy none [{}]", i, &out[..out.len().min(200)], &orig_outs[i][..orig_outs[i].len().min(200)])));
+                break;
+            }
+        }
     }
 
     /// C19: re-run the program just finished with a random subset of positions switched between the loud
